@@ -38,7 +38,11 @@ func c17Scenarios() []cParams {
 	ev := []string{"note:tx", "note:upd", "note:tx:same", "note:upd:skip", "note:tx:old", "note:upd:far", "note:hdrs", "note:insync", "drop", "tick:2100", "tick:100", "addhandler"}
 	resume := cBase(client.ConnectionTypeFull)
 	resume.FirstReady = 57
+	// an application that needs a while per notification and resumes from its own last handled id
+	slow := cBase(client.ConnectionTypeFull)
+	slow.HandlerDelay, slow.OwnID = 1500*time.Millisecond, true
 	return []cParams{
+		{Prop: "C17", Cfg: slow, Events: []string{"note:tx", "note:upd", "drop", "tick:2100", "tick:1000", "tick:100"}, Replay: true},
 		{Prop: "C17", Cfg: cBase(client.ConnectionTypeFull), Events: ev},
 		{Prop: "C17", Cfg: cBase(client.ConnectionTypeFull), Events: []string{"note:tx", "note:upd", "note:hdrs", "drop", "tick:2100", "tick:100"}, Replay: true},
 		{Prop: "C17", Cfg: resume, Events: []string{"note:tx", "note:upd", "note:tx:old", "drop", "tick:2100"}, Replay: true, Preload: 2},
